@@ -34,6 +34,9 @@ func (t *Tape) Choose(n int) int {
 	if n <= 1 {
 		return 0
 	}
+	if n > 1<<31 {
+		n = 1 << 31 // recorded values are 32 bits wide
+	}
 	t.Draws++
 	if t.replay {
 		if t.pos >= len(t.Vals) {
